@@ -21,6 +21,23 @@ thread_local! {
     static VFS: RefCell<Option<Rc<dyn Vfs>>> = RefCell::new(None);
     static YIELD: RefCell<Option<Rc<dyn Fn(&'static str)>>> = RefCell::new(None);
     static IDSOURCE: RefCell<Option<Rc<dyn Fn(&str, &str) -> String>>> = RefCell::new(None);
+    static QUERY_ERRORS: RefCell<Vec<String>> = RefCell::new(Vec::new());
+}
+
+/// H6: the query iterator reports evaluation errors on stderr only and then ends; this records them
+/// so that an observer can tell "no results" from "refused".
+pub(crate) fn note_query_error(e: &crate::error::StamError) {
+    QUERY_ERRORS.with(|slot| {
+        let mut v = slot.borrow_mut();
+        if v.len() < 64 {
+            v.push(format!("{}", e));
+        }
+    });
+}
+
+/// Take (and clear) the query evaluation errors recorded on this thread.
+pub fn take_query_errors() -> Vec<String> {
+    QUERY_ERRORS.with(|slot| std::mem::take(&mut *slot.borrow_mut()))
 }
 
 /// Install (or remove, with `None`) the virtual file system for the current thread.
